@@ -46,9 +46,14 @@ def run(ctx):
     Q = 'BeartypeConf.__new__'
 
     # ---- locate the key tuple, the kwargs dict, the memo table -------------
-    memo_names = [nm for nm, sts in m.assigns.items()
-                  if any(isinstance(getattr(s, 'value', None), ast.Dict) and not s.value.keys for s in sts)
-                  and any(isinstance(n, ast.Subscript) and dotted(n.value) == nm for n in ast.walk(new))]
+    def _defined_as(nm, pred):
+        """The module-level name `nm` (defined here or imported from a sibling module) is assigned a value satisfying pred."""
+        r = repo.resolve_name(m, new, nm)
+        dm = repo.modules.get(r.module) if getattr(r, 'module', None) else None
+        sts = (dm.assigns.get(r.name, []) if dm is not None else []) or m.assigns.get(nm, [])
+        return any(pred(getattr(s_, 'value', None)) for s_ in sts)
+    subscripted = sorted({dotted(n.value) for n in ast.walk(new) if isinstance(n, ast.Subscript) and isinstance(n.value, ast.Name)})
+    memo_names = [nm for nm in subscripted if _defined_as(nm, lambda v: isinstance(v, ast.Dict) and not v.keys)]
     ctx.require(len(memo_names) == 1, f'expected exactly one module-level memo dictionary used by {Q}, '
                                       f'found {memo_names}')
     MEMO = memo_names[0]
@@ -128,6 +133,34 @@ def run(ctx):
     ctx.ob('C17.R1', f'{Q}:no-duplicates', W(key_assign), 'key elements are pairwise distinct',
            len(set(options)) == len(options), str(options))
 
+    # stores made on behalf of __new__ by helpers receiving self (and the kwargs dictionary)
+    helper_stores = []
+    for c in calls_in(new):
+        args = [dotted(a) for a in c.args] + [dotted(k.value) for k in c.keywords]
+        if 'self' not in args:
+            continue
+        cd = callee_def(repo, m, c)
+        if not cd:
+            continue
+        hm_, hf = cd
+        hps = [a.arg for a in hf.args.posonlyargs + hf.args.args]
+        bind = {}
+        for i, a in enumerate(c.args):
+            if i < len(hps):
+                bind[hps[i]] = dotted(a)
+        for k in c.keywords:
+            if k.arg:
+                bind[k.arg] = dotted(k.value)
+        p_self = next((p_ for p_, v in bind.items() if v == 'self'), None)
+        p_kw = next((p_ for p_, v in bind.items() if v == kwargs_var), None)
+        if p_self is None:
+            continue
+        for a in walk_shallow(hf):
+            if isinstance(a, ast.Assign) and isinstance(a.targets[0], ast.Attribute) and dotted(a.targets[0].value) == p_self:
+                val = a.value
+                subs = [k_ for k_, _ in str_subscripts(val, p_kw)] if (p_kw and isinstance(val, ast.Subscript)) else []
+                helper_stores.append((f'self.{a.targets[0].attr}', subs[0] if subs else norm(val), a))
+
     # slots and properties
     slot_of: dict[str, str] = {}
     for name, fn in meths.items():
@@ -147,7 +180,12 @@ def run(ctx):
         slot = slot_of[o]
         stores = assigns_to(new, slot)
         srcs = []
-        for s in stores:
+        # slots may also be assigned by a helper that __new__ hands `self` and the kwargs dictionary to
+        for hs_slot, hs_src, hs_node in helper_stores:
+            if hs_slot == slot:
+                stores = stores + [hs_node]
+                srcs.append(hs_src)
+        for s in [x for x in stores if x not in [n_ for _, _, n_ in helper_stores]]:
             val = s.value
             subs = [k for k, _ in str_subscripts(val, kwargs_var)] if isinstance(val, ast.Subscript) else []
             if subs:
@@ -324,9 +362,10 @@ def run(ctx):
 
     # ---- R5 -----------------------------------------------------------------
     ctx.rule('C17.R5', 'every access of the memo table in __new__ is inside one and the same `with <lock>` block')
-    locks = [nm for nm, sts in m.assigns.items()
-             if any(isinstance(getattr(s, 'value', None), ast.Call) and (dotted(s.value.func) or '').split('.')[-1] in ('Lock', 'RLock')
-                    for s in sts)]
+    with_names = sorted({dotted(it.context_expr) for w_ in ast.walk(new) if isinstance(w_, ast.With) for it in w_.items
+                         if isinstance(it.context_expr, ast.Name)})
+    locks = [nm for nm in with_names
+             if _defined_as(nm, lambda v: isinstance(v, ast.Call) and (dotted(v.func) or '').split('.')[-1] in ('Lock', 'RLock'))]
     ctx.require(locks, f'{CONFMAIN}: no module-level lock')
     withs = set()
     acc = [n for n in walk_shallow(new) if isinstance(n, ast.Name) and n.id == MEMO]
